@@ -47,13 +47,25 @@ type mapper struct {
 	ncalls   int
 	fired    bool // an injected mapper fault was actually delivered to the library
 	override func(name gobinlog.MysqlTableName, call int) (gobinlog.MysqlTable, error, bool)
+	// shared: the mapper hands out the SAME table description object (and column slice) every time a table
+	// is asked for, as a mapper with its own schema cache does; otherwise a fresh one per call.  Chosen by
+	// a hash of the table names so that a replayed case behaves the same.
+	shared bool
+	cache  map[string]*mtable
+	src    map[string]*hist.Table // what each cached description was built from
 }
 
 func newMapper(tables []hist.Table) *mapper {
-	m := &mapper{tables: map[string]*hist.Table{}}
+	m := &mapper{tables: map[string]*hist.Table{}, cache: map[string]*mtable{}, src: map[string]*hist.Table{}}
+	h := uint32(2166136261)
 	for i := range tables {
 		m.tables[tables[i].DB+"\x00"+tables[i].Name] = &tables[i]
+		for _, b := range []byte(tables[i].Name) {
+			h = (h ^ uint32(b)) * 16777619
+		}
+		h = (h ^ uint32(len(tables[i].Cols))) * 16777619
 	}
+	m.shared = h&1 == 1
 	return m
 }
 
@@ -75,9 +87,18 @@ func (m *mapper) MysqlTable(name gobinlog.MysqlTableName) (gobinlog.MysqlTable, 
 	if !ok {
 		return &mtable{name: name}, fmt.Errorf("harness mapper: unknown table %q.%q", name.DbName, name.TableName)
 	}
+	key := name.DbName + "\x00" + name.TableName
+	if m.shared && m.deltaAt != m.ncalls {
+		if mt, ok := m.cache[key]; ok && m.src[key] == t {
+			return mt, nil
+		}
+	}
 	mt := &mtable{name: name}
 	for _, c := range t.Cols {
 		mt.cols = append(mt.cols, mcol{c.Name, c.Unsigned})
+	}
+	if m.shared && m.deltaAt != m.ncalls {
+		m.cache[key], m.src[key] = mt, t
 	}
 	if m.deltaAt == m.ncalls {
 		m.fired = true
